@@ -432,6 +432,7 @@ func (g *Gen) applyFuncSpecWith(st *State, fs *FuncSpec, fn *ssa.Function, args 
 		g.oblige(st, "lock", "call "+fs.Name+" releases", "call "+fs.Name+": the lock it releases is held", g.heldTerm(st, g.heldKeyOfExpr(lctx, e)))
 	}
 	app := contractApp{
+		pkg:  fn.Pkg,
 		what: "call " + fs.Name, binds: binds, requires: fs.Requires, ensures: ens, mod: fs.Modifies, pure: pure, havocAll: havoc,
 		rt: rt, resultNames: rn, clausePrefix: "call " + fs.Name + " ", calleeGhosts: fs.Ghosts, mutGhosts: mut, preserves: fs.Preserves,
 	}
@@ -480,12 +481,13 @@ type contractApp struct {
 	calleeGhosts []*GhostDecl
 	mutGhosts    []string
 	preserves    []string
+	pkg          *ssa.Package
 	extra        *CalleeSpec // call-site additions on top of a function contract (mixed naming context)
 }
 
 func (g *Gen) applyContract(st *State, a contractApp) Val {
 	pre := st.clone()
-	ctx := &specCtx{g: g, st: st, old: pre, binds: a.binds, calleeOnly: !a.ownNames}
+	ctx := &specCtx{g: g, st: st, old: pre, binds: a.binds, calleeOnly: !a.ownNames, pkg: a.pkg}
 	if a.ownNames {
 		ctx.oldIsPre = true
 	}
@@ -564,7 +566,7 @@ func (g *Gen) applyContract(st *State, a contractApp) Val {
 			g.noteGhostWrite(n)
 		}
 	}
-	ectx := &specCtx{g: g, st: st, old: pre, binds: a.binds, results: results, resultNames: a.resultNames, calleeOnly: !a.ownNames || a.extra != nil, oldIsPre: true}
+	ectx := &specCtx{g: g, st: st, old: pre, binds: a.binds, results: results, resultNames: a.resultNames, calleeOnly: !a.ownNames || a.extra != nil, oldIsPre: true, pkg: a.pkg}
 	for _, c := range a.ensures {
 		g.assume(st, g.evalAssume(ectx, c.E))
 	}
